@@ -220,7 +220,7 @@ def read(m, name, extra):
         return Raised(e)
 
 
-def differ(a, b, name, scale):
+def differ(a, b, name, scale, tight=1.0):
     """None if equal, else a short description."""
     if isinstance(a, Raised) or isinstance(b, Raised):
         if isinstance(a, Raised) and isinstance(b, Raised):
@@ -232,7 +232,7 @@ def differ(a, b, name, scale):
         if not isinstance(b, dict) or set(a) != set(b):
             return "dict keys differ"
         for k in a:
-            d = differ(a[k], b[k], name, scale)
+            d = differ(a[k], b[k], name, scale, tight)
             if d:
                 return "%s: %s" % (k, d)
         return None
@@ -240,7 +240,7 @@ def differ(a, b, name, scale):
         if not isinstance(b, list) or len(a) != len(b):
             return "list length %s vs %s" % (len(a), len(b) if isinstance(b, list) else "?")
         for x, y in zip(a, b):
-            d = differ(x, y, name, scale)
+            d = differ(x, y, name, scale, tight)
             if d:
                 return d
         return None
@@ -267,6 +267,7 @@ def differ(a, b, name, scale):
             # sum over edges of angle * length / 2: an angle between (nearly) parallel normals
             # carries sqrt(eps) ~ 3e-8 rad of rounding whatever the code does
             tol += 1e-7 * scale.get("edge_sum", 0.0)
+        tol *= tight
         bad = ~(np.isclose(a_, b_, rtol=1e-9, atol=tol) | both_nan)
         if bad.any():
             return "float values differ: max abs err %.3g (tol %.3g)" % (
@@ -343,9 +344,51 @@ def perturbed_twin(f, run, style="noise"):
             if vn.shape == np.shape(g.vertices) and len(vn):
                 g._cache["vertex_normals"] = _transport(vn, R)
             return g
+        if style == "pose":
+            # normals COMPUTED in another pose of the same surface and carried back - exactly what
+            # the library legitimately holds after a rigid transform.  trimesh's angle weights go
+            # through arccos of unit-vector dot products, which loses half the digits for corner
+            # angles near 0 or pi: at such vertices the computed normal depends on the pose at the
+            # 1e-5 level, and a carried value is no more stale than a recomputed one is exact
+            import trimesh
+            from trimesh import transformations as tf
+            from trimesh import util
+
+            R = tf.rotation_matrix(1.1371, [-0.42, 0.66, 0.62])
+            V = np.array(f.vertices, dtype=np.float64)
+            if not np.isfinite(V).all():
+                return None
+            other = trimesh.Trimesh(tf.transform_points(V, R), np.array(f.faces).copy(), process=False)
+            fn = np.array(other.face_normals, dtype=np.float64)
+            vn = np.array(other.vertex_normals, dtype=np.float64)
+            if fn.shape == np.shape(g.faces) and len(fn):
+                g._cache["face_normals"] = util.unitize(tf.transform_points(fn, R.T, translate=False))
+            if vn.shape == np.shape(g.vertices) and len(vn):
+                g._cache["vertex_normals"] = util.unitize(tf.transform_points(vn, R.T, translate=False))
+            return g
+        if style == "vertex_rounding":
+            # the same surface with vertex positions off by their own rounding (rotated there and
+            # back through the library's code path, ~1e-16 relative to the coordinates) and nothing
+            # stored: a value that moves by more than the tolerance under THIS is decided by
+            # rounding of the positions (slivers next to the degeneracy thresholds, normal sums
+            # that nearly cancel), not by what is cached
+            from trimesh import transformations as tf
+
+            R = tf.rotation_matrix(0.8123, [0.31, -0.57, 0.76])
+            V = np.array(f.vertices, dtype=np.float64)
+            fin = np.isfinite(V).all(axis=1)
+            V2 = V.copy()
+            V2[fin] = tf.transform_points(tf.transform_points(V[fin], R), R.T)
+            g.vertices = V2
+            return g
         fn = np.array(f.face_normals, dtype=np.float64)
         if fn.shape == np.shape(g.faces) and len(fn):
-            p = fn * (1.0 + 1e-15 * rng.standard_normal(fn.shape)) + 1e-16 * rng.standard_normal(fn.shape)
+            # "noise": a few ulp.  "noise_carried": what normals look like after they were carried
+            # through a few transforms (the mesh in the witness held -n to 4e-13 where a fresh mesh
+            # computes exactly -n): face normals that cancel exactly on a fresh mesh (back-to-back
+            # faces) then leave a sum above unitize's zero threshold, i.e. a unit vector of noise
+            e = 1e-12 if style == "noise_carried" else 1e-15
+            p = fn * (1.0 + e * rng.standard_normal(fn.shape)) + 0.1 * e * rng.standard_normal(fn.shape)
             nrm = np.linalg.norm(p, axis=1)
             ok = nrm > 0
             p[ok] /= nrm[ok].reshape((-1, 1))
@@ -708,7 +751,7 @@ class Monitor:
             # built on first use: most histories never need them
             if not twin_box:
                 built = []
-                for style in ("noise", "transport"):
+                for style in ("noise", "transport", "vertex_rounding", "pose", "noise_carried"):
                     t = perturbed_twin(f, self.run, style)
                     if t is not None:
                         built.append((t, _extra_reads(t, sc)))
@@ -745,7 +788,10 @@ class Monitor:
                 for ft, ex in twins():
                     if n in extra_f and n not in ex:
                         continue
-                    if differ(read(ft, n, ex), vf, n, sc):
+                    # a quarter of the tolerance: the mesh's value and the fresh one may each sit
+                    # as far from the exact value as a twin sits from the fresh one, in opposite
+                    # directions
+                    if differ(read(ft, n, ex), vf, n, sc, tight=0.25):
                         unstable = True
                         break
                 if unstable:
